@@ -158,8 +158,57 @@ theorem foldC2_gPlain_digits (q : List Nat) (st : Int) :
 
 /-! ## Code 93: weights cycling 1..max from the right -/
 
-/-- the step of the Code 93 loops on an alphabet INDEX `c` -/
-def g93 (maxW : Int) (c : Int) (st : Int × Int) : Ctl (Int × Int) ρ :=
+/-- the step of the Code 93 loops on an alphabet INDEX `c`: state = (weight, total) -/
+def g93 {ρ : Type} (maxW : Int) (c : Int) (st : Int × Int) : Ctl (Int × Int) ρ :=
   .next (if st.1 + 1 > maxW then 1 else st.1 + 1, st.2 + st.1 * c)
+
+theorem foldC_g93 {ρ : Type} (F : Int → Int) (c : Nat → Nat) (r : List Nat)
+    (hF : ∀ b ∈ r, F (b : Int) = (c b : Int)) (maxW : Nat) :
+    ∀ (w : Nat) (tot : Int), ∃ w' : Nat,
+      foldC (ρ := ρ) (fun v st => g93 (maxW : Int) (F v) st) (bytes r) ((w : Int), tot) =
+        .next ((w' : Int), tot + (c93SumRev maxW w (r.map c) : Nat)) := by
+  induction r with
+  | nil => intro w tot; exact ⟨w, by simp [bytes, foldC, c93SumRev]⟩
+  | cons b r ih =>
+    intro w tot
+    have hb := hF b (by simp)
+    obtain ⟨w', hw'⟩ := ih (fun x hx => hF x (by simp [hx])) (c93Next maxW w) (tot + (w : Int) * (c b : Int))
+    refine ⟨w', ?_⟩
+    have hnext : (if (w : Int) + 1 > (maxW : Int) then (1 : Int) else (w : Int) + 1) = ((c93Next maxW w : Nat) : Int) := by
+      unfold c93Next
+      split <;> split <;> omega
+    simp only [bytes, List.map_cons, foldC, g93, Int.ofNat_eq_natCast, hb, hnext] at hw' ⊢
+    rw [hw']
+    simp only [c93SumRev, Int.natCast_add, Int.natCast_mul]
+    congr 2
+    rw [Int.mul_comm (c b : Int) (w : Int)]; omega
+
+/-! ## table scans `for d := 0; d < n; d++ { if lg == T[d] { return d, nil } }` -/
+
+theorem loop_scan (T : List Nat) (lg : Nat) (body : Int → Unit → Ctl Unit (Int × Bool))
+    (hb : ∀ (i : Nat) (h : i < T.length), body (i : Int) () = if T[i] = lg then .ret ((i : Int), false) else .next ()) :
+    ∀ (n a : Nat), a + n ≤ T.length →
+      loop body 1 n (a : Int) () =
+        match indexOf? lg ((T.drop a).take n) with
+        | some d => .ret (((a + d : Nat) : Int), false)
+        | none => .next () := by
+  intro n
+  induction n with
+  | zero => intro a _; simp [loop, indexOf?]
+  | succ n ih =>
+    intro a ha
+    have hlt : a < T.length := by omega
+    have e : (T.drop a).take (n + 1) = T[a] :: (T.drop (a + 1)).take n := by
+      rw [List.drop_eq_getElem_cons hlt, List.take_succ_cons]
+    rw [e, loop_succ, hb a hlt]
+    simp only [indexOf?]
+    by_cases c : T[a] = lg
+    · simp [c]
+    · simp only [c, if_false]
+      have e2 : (a : Int) + 1 = ((a + 1 : Nat) : Int) := by omega
+      rw [e2, ih (a + 1) (by omega)]
+      cases indexOf? lg ((T.drop (a + 1)).take n) with
+      | none => rfl
+      | some d => simp only [Option.map_some]; congr 3; omega
 
 end Gzx.K10
